@@ -94,6 +94,11 @@ class C11(Machine):
                 0.2 if tier == 'thorough' else 0.08):
             # automatic gridding, bounded to 8..32 cells per direction
             gridding = rng.choice(['single', 'frequency', 'source', 'both'])
+            # automatic grids have up to 32^3 cells: keep the solver cheap
+            sopts['maxit'] = min(sopts['maxit'], 3)
+            if sopts.get('cycle', 'F') is None:
+                sopts['cycle'] = 'V'
+            sopts.pop('tol_gradient', None)
         mw = rng.choice([1, 2, 2, 3, 3, 4, 5, 8, 16, max(2, ntasks),
                          max(2, ntasks - 1), ntasks + 1])
         if tier == 'thorough':
